@@ -351,7 +351,9 @@ def judge(run):
             if len(inflight) > maxlimit:
                 fail('c20:in-flight-exceeds-max-limit',
                      f'{len(inflight)} operations awaiting a response at t={t}; largest limit so far {maxlimit}')
-            if len(inflight) > cap:
+            # (with blocked writes a caller is written later than it entered the limiter, so the
+            # capacity cannot be reconstructed from the writes: only the max-limit clause applies)
+            if len(inflight) > cap and not wl.get('pauses'):
                 fail('c20:in-flight-exceeds-capacity',
                      f'{len(inflight)} awaiting at t={t}; capacity after reductions {cap} (limit {limit})')
         elif kind == 'd':
@@ -417,6 +419,38 @@ def judge(run):
             c = callers[cid]
             if done[cid][1][0] != 'timeout' and not (c['kind'] == 'batch' and not any(c['items'])):
                 fail('c20:unanswered-without-timeout', f'caller {cid} never answered, outcome {done[cid][1]}')
+    # the limit is re-estimated after every recalibration interval: over a stretch of completions
+    # whose response times (per request) are ALL far above target_response_time and which spans at
+    # least two full intervals (2*recalibrate_count samples + slack for batches that step over the
+    # count), the limit must have been lowered at least once - unless it already is 1
+    if run.lost_at is None and not wl.get('pauses'):
+        recal, trt = cfg['recal'], cfg['trt']
+        maxb = max([count_of(c) for c in wl['callers']] + [1])
+        need = 2 * recal + 2 * maxb
+        samples, saw_down, minlim, prev, t_first = 0, False, None, 50, None
+        for kind, cid, t, lim_now, extra in run.log:
+            if samples and lim_now < prev:
+                saw_down = True
+            prev = lim_now
+            if kind != 'd' or cid not in run.written:
+                continue
+            c = callers[cid]
+            if c['kind'] == 'batch' and not any(c['items']):
+                continue            # a batch of notifications only does not wait for a response
+            share = max(0.0, t - run.written[cid]) / count_of(c)
+            if share > 1.5 * trt:
+                if samples == 0:
+                    t_first, minlim, saw_down = t, lim_now, False
+                samples += count_of(c)
+                minlim = min(minlim, lim_now)
+                if samples >= need and not saw_down and minlim > 1:
+                    fail('c20:limit-not-re-estimated',
+                         f'{samples} consecutive response-time samples (t={t_first}..{t}) all above 1.5 x '
+                         f'target_response_time {trt} with recalibrate_count {recal}, yet the limit never '
+                         f'went down (it is {lim_now})')
+                    break
+            else:
+                samples = 0
     # connection loss cancels every outstanding request at once
     if run.lost_at is not None:
         for cid, tw in run.written.items():
@@ -590,6 +624,23 @@ def random_workload(rng, big=False):
     return wl
 
 
+def stepover_workload(rng):
+    """k singles and then a batch whose samples step over recalibrate_count, followed by waves of
+    slow singles: the limit has to keep being re-estimated"""
+    r = rng.choice([3, 5, 10])
+    trt = 0.25
+    cfg = dict(timeout=2.0, trt=trt, recal=r)
+    k = rng.randint(0, r - 1)
+    callers = [dict(id=i, start=i * 0.015625, kind='single') for i in range(k)]
+    size = rng.randint(r - k + 1, r - k + 4)
+    callers.append(dict(id=k, start=k * 0.015625, kind='batch', items=[True] * size))
+    n2 = 4 * r + 4 * size + 8
+    for j in range(n2):
+        callers.append(dict(id=k + 1 + j, start=2.0 + j * 0.03125, kind='single'))
+    delay = rng.choice([1.0, 0.75, 1.5])
+    return dict(cfg=cfg, callers=callers, peer_spec=dict(kind='slow', names=['slow'], table=[('reply', delay)]))
+
+
 def corpus_workloads(verif):
     out = []
     for line in corpus_lines(verif, 'C20'):
@@ -679,6 +730,10 @@ RULE = ('(i) case = (current, target_response_time, average): every current in 1
         'distinct JSON of the workload / distinct (current, trt, avg)')
 
 
+def full_tier(ctx):
+    return ctx.tier == 'thorough'
+
+
 def _known_keys(ctx):
     try:
         with open(os.path.join(ctx.verif, 'known_findings.json')) as f:
@@ -705,7 +760,14 @@ def run(ctx):
     if cw:
         evaluate_workloads(ctx, res, cw, 'corpus')
     res['scopes']['corpus'] = len(cr) + len(cw)
-    # (b) exhaustive recalibration grid
+    # (b) targeted workloads: batches stepping over recalibrate_count, then slow waves
+    nso = 30
+    evaluate_workloads(ctx, res, [stepover_workload(rng) for _ in range(nso)], 'stepover')
+    if full_tier(ctx) and not _failed(res, known):
+        evaluate_workloads(ctx, res, [stepover_workload(rng) for _ in range(370)], 'stepover')
+        nso += 370
+    res['scopes']['stepover_workloads'] = nso
+    # (c) exhaustive recalibration grid
     full = ctx.tier == 'thorough'
     cases = list(recalc_cases(full and not _failed(res, known)))
     evaluate_recalc(ctx, res, cases)
@@ -715,6 +777,7 @@ def run(ctx):
     wls = [random_workload(rng, big=(k % 3 == 0)) for k in range(nwl)]
     evaluate_workloads(ctx, res, wls, 'random')
     res['scopes']['workloads'] = nwl
+
     for wl in wls[:2]:
         res.sample({'cfg': wl['cfg'], 'callers': len(wl['callers']), 'peer': wl['peer_spec']['names']})
     return res.finish(RULE, exhaustive=True)
